@@ -268,6 +268,27 @@ def h_misc(ctx, what):
     ctx.check('the dead handler is unsubscribed', src._eventMixin_get_listener_count() == 2)
     del calls[:]; go()
     ctx.check('next delivery: survivors only', calls == ['dropper', 'tail'])
+  elif what == 'weak_control':
+    # a weakly subscribed handler takes part in delivery like any other: what it returns (halt / remove / halt-and-remove / nothing) is honoured
+    calls = []
+    rvs = [None, True, False, R.EventHalt, R.EventRemove, R.EventHaltAndRemove]
+    k = int(ctx.int('returns', 0, len(rvs) - 1)); form = int(ctx.int('form', 0, 2))
+    class Owner:
+      def _handle_E1(self, e):
+        calls.append('weak'); return rvs[k]
+    o = Owner()
+    src.addListener(w.E1, lambda e: calls.append('first'), priority=9)
+    if form == 0: src.addListener(w.E1, o._handle_E1, weak=True, priority=5)
+    elif form == 1: src.addListenerByName('E1', o._handle_E1, weak=True, priority=5)
+    else: src.addListeners(o, weak=True, priority=5)
+    src.addListener(w.E1, lambda e: calls.append('last'), priority=1)
+    halts = k in (1, 3, 5); removes = k in (2, 4, 5)
+    src.raiseEvent(w.E1)
+    ctx.check('a halt returned by a weak handler stops the delivery', calls == ['first', 'weak'] + ([] if halts else ['last']))
+    del calls[:]; src.raiseEvent(w.E1())
+    ctx.check('a weak handler that asked to be removed is not invoked again',
+              calls == ['first'] + ([] if removes else ['weak']) + ([] if (halts and not removes) else ['last']))
+    ctx.check('listener count', src._eventMixin_get_listener_count() == (2 if removes else 3))
   elif what == 'bulk_remove':
     # removeListeners(list of ids): every listed subscription is gone afterwards, whichever of them are still live (solver-chosen subset was
     # already removed one by one), the others stay; the result says whether anything was removed
@@ -340,6 +361,6 @@ def obligations(tier):
   return [
     Obligation('O1_histories', h_history, [dict(plan=p, behs=behs) for p in plans], witnesses=('done',), max_decisions=20000,
                desc='invocation log == reference dispatcher over symbolic histories'),
-    Obligation('O2_misc', h_misc, [dict(what=x) for x in ('undeclared', 'weak', 'weak_during', 'noerrors_kinds', 'bulk_remove', 'autobind')], witnesses=('done',),
+    Obligation('O2_misc', h_misc, [dict(what=x) for x in ('undeclared', 'weak', 'weak_during', 'noerrors_kinds', 'bulk_remove', 'weak_control', 'autobind')], witnesses=('done',),
                desc='undeclared types rejected; weak handlers; autoBindEvents/removeListeners'),
   ]
